@@ -13,7 +13,8 @@ RULE = (
     "detached option value, a multi-valued argument, a '--' tail) x 3 Hypothesis-drawn placements of the switches among "
     "the tokens after the command path (all placements for subsets of size <= 2 in the thorough tier) x handler that "
     "writes one tagged line per message level to both streams, asks a question with a default and optionally raises; "
-    "plus the same switch tokens copied after '--'. Non-trivial: >= 2 switches, a switch between two positionals, or a "
+    "plus the same switch tokens copied after '--'; tree: Hypothesis command trees with a valid generated line for one "
+    "of their commands (any depth, default sub-commands, aliases) and 1-4 switches inserted after the path. Non-trivial: >= 2 switches, a switch between two positionals, or a "
     "post-'--' copy. Distinct by hash of (line, switches, placements)."
 )
 ASSUMPTIONS = [
@@ -84,6 +85,33 @@ def build_app(log, raising):
     return ConsoleApplication(cfg)
 
 
+def build_tree_app(tree, log, raising):
+    from clikit.ui.components.question import Question
+
+    from vf import gen_tree
+
+    switch_names = {o["long"] for o in gen_tree.DEFAULT_APP_OPTIONS}
+
+    def handler_for(path, cmd):
+        class H(object):
+            def handle(self, args, io, command):
+                log.append({"cmd": command.full_name, "quiet": io.is_quiet(), "verbosity": io.verbosity,
+                            "interactive": io.is_interactive(), "args": args.arguments(False),
+                            "opts": {k: v for k, v in args.options(False).items() if k not in switch_names}})
+                for name, flag, _ in LEVELS:
+                    io.write_line(L + "info" + G + "out-" + name + L + "/info" + G, flag)
+                    io.error_line(L + "info" + G + "err-" + name + L + "/info" + G, flag)
+                log[-1]["answer"] = Question("q?", "dflt").ask(io)
+                if raising:
+                    raise ValueError("boom from handler")
+                return 0
+
+        return H()
+
+    return gen_tree.build_app(tree, "default", handler_for,
+                              configure=lambda cfg: cfg.set_name("my-app").set_version("1.2.3"))
+
+
 def place(line, switches, placement):
     """Insert switches[i] at head position placement[i] (positions refer to the original head)."""
     head = list(line["head"])
@@ -123,14 +151,14 @@ def fix_dash_v(tokens, line):
     return out
 
 
-def execute(line, tokens, raising):
+def execute(line, tokens, raising, tree=None):
     from clikit.args import ArgvArgs
     from clikit.io.input_stream import StringInputStream
     from clikit.io.output_stream import BufferedOutputStream
 
     os.environ["COLUMNS"] = "80"
     log = []
-    app = build_app(log, raising)
+    app = build_app(log, raising) if tree is None else build_tree_app(tree, log, raising)
     out, err = BufferedOutputStream(), BufferedOutputStream()
     inp = StringInputStream("typed\n")
     status = app.run(ArgvArgs(["prog"] + tokens), inp, out, err)
@@ -155,9 +183,9 @@ def direct_help(app, cmd_name, ansi):
     return io.fetch_output()
 
 
-def judge(ctx, case, line, tokens, kinds, res, app, label):
+def judge(ctx, case, line, tokens, kinds, res, app, label, part="switches"):
     def fail(clause, expected, observed, sig=None):
-        ctx.fail("switches", clause, case, expected, {"variant": label, "tokens": tokens, "observed": observed}, sig=sig)
+        ctx.fail(part, clause, case, expected, {"variant": label, "tokens": tokens, "observed": observed}, sig=sig)
 
     quiet, helpk, version = "quiet" in kinds, "help" in kinds, "version" in kinds
     verb = {"-v": 1, "-vv": 2, "-vvv": 4}.get(kinds.get("verb"), 0)
@@ -226,8 +254,9 @@ def judge(ctx, case, line, tokens, kinds, res, app, label):
             fail("C09.no-ansi", "markup never shows", [out, err], sig="markup")
 
 
-def check_switches(ctx, case):
-    line = LINES[case["line"]]
+def check_switches(ctx, case, part="switches"):
+    line = LINES[case["line"]] if "line" in case else case["line_spec"]
+    tree = case.get("tree")
     switches = case["switches"]
     kinds = {TOKEN_KIND[t]: t for t in switches}
     between = False
@@ -240,11 +269,11 @@ def check_switches(ctx, case):
             if t in TOKEN_KIND and 0 < i < len(head) - 1 and not head[i - 1].startswith("-") and not head[i + 1].startswith("-"):
                 between = True
         try:
-            res, app = execute(line, tokens, case["raise"])
+            res, app = execute(line, tokens, case["raise"], tree)
         except Exception as e:
-            ctx.fail("switches", "C09.position-invariance", case, "run returns", tokens, exc=e)
+            ctx.fail(part, "C09.position-invariance", case, "run returns", tokens, exc=e)
             return
-        judge(ctx, case, line, tokens, kinds, res, app, "placement-%d" % pi)
+        judge(ctx, case, line, tokens, kinds, res, app, "placement-%d" % pi, part)
         results.append((tokens, res))
     base = results[0]
     for tokens, res in results[1:]:
@@ -252,36 +281,78 @@ def check_switches(ctx, case):
             break  # which of the two wins is not defined (see ASSUMPTIONS); status / silence were judged above
         if res != base[1]:
             diff = [k for k in res if res[k] != base[1][k]]
-            ctx.fail("switches", "C09.position-invariance", case, {"tokens": base[0], "result": {k: base[1][k] for k in diff}},
+            ctx.fail(part, "C09.position-invariance", case, {"tokens": base[0], "result": {k: base[1][k] for k in diff}},
                      {"tokens": tokens, "result": {k: res[k] for k in diff}}, sig="differs")
     if case.get("tail_copy") and switches:
         # the same tokens after '--' have none of these effects
         plain_tokens = list(line["head"]) + ["--"] + (tail or [])
         copy_tokens = list(line["head"]) + ["--"] + (tail or []) + list(switches)
         try:
-            a, _ = execute(line, plain_tokens, case["raise"])
-            b, _ = execute(line, copy_tokens, case["raise"])
+            a, _ = execute(line, plain_tokens, case["raise"], tree)
+            b, _ = execute(line, copy_tokens, case["raise"], tree)
         except Exception as e:
-            ctx.fail("switches", "C09.after-separator", case, "run returns", copy_tokens, exc=e)
+            ctx.fail(part, "C09.after-separator", case, "run returns", copy_tokens, exc=e)
             return
         for k in ("status", "out", "err", "input_left"):
             if a[k] != b[k]:
-                ctx.fail("switches", "C09.after-separator", case, {k: a[k]}, {"tokens": copy_tokens, k: b[k]}, sig=k)
+                ctx.fail(part, "C09.after-separator", case, {k: a[k]}, {"tokens": copy_tokens, k: b[k]}, sig=k)
         if a["log"] and b["log"]:
             la, lb = dict(a["log"][0]), dict(b["log"][0])
             want_rest = list(la["args"].get("rest", [])) + list(switches)
             if lb["args"].get("rest") != want_rest:
-                ctx.fail("switches", "C09.after-separator", case, want_rest, lb["args"], sig="positionals")
+                ctx.fail(part, "C09.after-separator", case, want_rest, lb["args"], sig="positionals")
             la.pop("args"), lb.pop("args")
             if la != lb:
-                ctx.fail("switches", "C09.after-separator", case, la, lb, sig="io-state")
+                ctx.fail(part, "C09.after-separator", case, la, lb, sig="io-state")
         elif bool(a["log"]) != bool(b["log"]):
-            ctx.fail("switches", "C09.after-separator", case, "same handler invocations", [a["log"], b["log"]], sig="handler")
+            ctx.fail(part, "C09.after-separator", case, "same handler invocations", [a["log"], b["log"]], sig="handler")
     nt = len(switches) >= 2 or between or bool(case.get("tail_copy"))
-    ctx.case("switches", case, nt, ["c09:" + k for k in kinds])
+    ctx.case(part, case, nt, ["c09:" + k for k in kinds])
 
 
-PARTS = {"switches": check_switches}
+def check_tree_switches(ctx, case):
+    check_switches(ctx, case, part="tree")
+
+
+PARTS = {"switches": check_switches, "tree": check_tree_switches}
+
+
+@st.composite
+def tree_case(draw):
+    """A generated command tree, a valid line for one of its commands, a subset of the switches inserted after the path."""
+    from props import c03
+    from vf import gen_tree
+
+    tree = draw(gen_tree.tree_st())
+    for _ in range(6):
+        c = draw(c03.line_for(tree, "default"))
+        if c["kind"] == "valid" and c.get("expect") and c.get("intended") and c["intended"] != ["help"] \
+                and c.get("depth", 0) >= 1 and not c.get("default_involved"):
+            # depth >= 1: with no leading token the built-in help command is the first default;
+            # no default sub-commands at the named command: which default is chosen is C03's subject
+            break
+    else:
+        c = None
+    if c is None:
+        # fall back to the fixed application
+        return draw(case_for(draw(st.integers(0, 127)), draw(st.integers(0, len(LINES) - 1))))
+    tokens = list(c["tokens"])
+    head = tokens[: tokens.index("--")] if "--" in tokens else tokens
+    tail = tokens[tokens.index("--") + 1:] if "--" in tokens else None
+    spec = {"head": head, "path": c.get("depth", 0), "tail": tail, "cmd": " ".join(c["intended"]),
+            "args": c["expect"]["arguments_set"], "opts": c["expect"]["options_set"],
+            "forbidden": [i for i in range(1, len(head) + 1) if head[i - 1].startswith("-") and "=" not in head[i - 1]]}
+    kinds = draw(st.lists(st.sampled_from(KINDS), min_size=1, max_size=4, unique=True))
+    switches = [draw(st.sampled_from(SPELL[k])) for k in kinds]
+    placements = []
+    for _ in range(2):
+        pl = []
+        for t in switches:
+            pos = legal_positions(spec, t) or [len(head)]
+            pl.append(draw(st.sampled_from(pos)))
+        placements.append(pl)
+    return {"tree": tree, "line_spec": spec, "switches": switches, "placements": placements, "raise": draw(st.booleans()),
+            "tail_copy": False}
 
 
 @st.composite
@@ -328,9 +399,13 @@ def shard_all_placements(ctx, arg):
                                          "tail_copy": True})
 
 
+HYP = {"tree": (lambda ctx: tree_case(), check_tree_switches)}
+
+
 def run(ctx):
     quick = ctx.tier == "quick"
     ctx.parallel("shard", [(i, 16, 3 if quick else 12) for i in range(16)])
     if not quick:
         ctx.parallel("shard_all_placements", [(i, 16) for i in range(16)])
     ctx.hyp(all_cases(), lambda c: check_switches(ctx, c), 200 if quick else 3000, salt=1)
+    ctx.hyp_sharded("tree", 1600 if quick else 30000, salt=2)
